@@ -15,7 +15,10 @@ CHECKS = {
                 "them are sampled only by the free-running stress twin. Trusts testing/synctest quiescence detection.",
         "assumptions": ["interleaving granularity = frontend call-outs", "goroutines the library spawns are identified by goroutine id + task id in the context"],
         "jobs": [
-            {"run": "^TestC01SingleBuild$", "n": {"quick": 12000, "thorough": 60000}},
+            {"run": "^TestC01SingleBuild$", "n": {"quick": 10000, "thorough": 60000}},
+            {"run": "^TestC01Sweep$", "n": {"quick": 1, "thorough": 1}, "env_tier": {"quick": {"VERIF_SWEEP_LIMIT": 30}, "thorough": {}},
+             "shards": {"quick": 1, "thorough": 16}},
+            {"run": "^TestC01Stress$", "race": True, "n": {"quick": 150, "thorough": 1500}, "shards": {"quick": 1, "thorough": 8}},
         ],
     },
     "C02": {
@@ -31,6 +34,7 @@ CHECKS = {
         "assumptions": ["interleaving granularity = frontend call-outs"],
         "jobs": [
             {"run": "^TestC02Provenance$", "n": {"quick": 8000, "thorough": 40000}},
+            {"run": "^TestC02FaultEnum$", "n": {"quick": 1500, "thorough": 12000}},
         ],
     },
     "C03": {
@@ -148,6 +152,7 @@ CHECKS = {
         "jobs": [
             {"run": "^TestC09Collisions$", "n": {"quick": 10000, "thorough": 100000}},
             {"run": "^TestC09BufferReuse$", "n": {"quick": 5000, "thorough": 40000}},
+            {"run": "^TestC09FailoverCollision$", "n": {"quick": 5000, "thorough": 40000}},
         ],
     },
     "C10": {
